@@ -75,7 +75,14 @@ def check(P: Project, R: Report) -> None:
             R.ob("R1", f"`{ast.unparse(c)[:50]}` is a stateless decode of a per-chunk value", not on_chunk and False, where,
                  "a read that ends inside a multi-byte UTF-8 sequence raises UnicodeDecodeError (or decodes to replacement characters) here",)
 
-    # ------------------------------------------------------------------ R2
+    # ------------------------------------------------------------------ R2 (chunk-independence rules shared with the SSE readers)
+    from . import _chunks
+
+    _chunks.no_discard_before_accumulate(R, "R2", rd, loop, rd.qual)
+    _chunks.no_byte_length_offsets(R, "R2", rd, loop, rd.qual)
+    bufname = _chunks.accumulate_var(loop)
+    if bufname:
+        _chunks.line_cut_discipline(R, "R2", rd, loop, [bufname], rd.qual)
     splits = [c for c in walk_local(loop) if isinstance(c, ast.Call) and isinstance(c.func, ast.Attribute) and c.func.attr in ("split", "splitlines", "rsplit", "partition")]
     line_splits = [c for c in splits if isinstance(c.func.value, ast.Name)]
     R.need(line_splits, "anchor: the read loop does not split a buffer into lines")
